@@ -1051,3 +1051,20 @@ def rule_next_resumes(rep, crate, cfg):
     d = ret_desc(fn)
     if d != 'call:Logos::lex(param1)' and d != 'call:Logos::lex(self)':
         rep.viol(rid, 'next:return', 'Lexer::next returns %s, expected Token::lex(self)' % d, loc(fn))
+
+
+# --------------------------------------------------------------------------------------------
+# witnesses
+# --------------------------------------------------------------------------------------------
+
+def rule_witnesses(rep, ctx):
+    import facts
+    rid = rep.rule('W', 'compile-fail witnesses (with compiling twins): Lexer\'s span fields cannot be written or struct-constructed outside the crate (E0616, E0451), morph requires the same Source type (E0271), clone and the accessors take &self while bump needs &mut self (E0596)', floor=12)
+    res = facts.witness_facts(ctx.hash)
+    for k, v in sorted(res.items()):
+        rep.inst(rid, k, detail=v)
+        if v != 'ok':
+            if k.split('#')[0].endswith(':compile_fail'):
+                rep.viol(rid, 'witness:' + k, 'witness %s no longer fails to compile with the expected error code: the type-level guarantee it documents is gone' % k, 'witness/src/lib.rs')
+            else:
+                rep.viol(rid, 'witness-twin:' + k, 'the compiling twin %s no longer compiles: the witness next to it may fail for an unrelated reason' % k, 'witness/src/lib.rs')
